@@ -13,7 +13,8 @@ CHECKS = {
               "lists/sets of 1,2 (and 14,15,16 at depth 1) elements, all map key x value shapes; thorough adds width 3 at "
               "depth 1 and every depth-2 shape wrapped once more = depth 3); (b) scalar sweeps (all i8, i16 boundaries or all "
               "i16, i32/i64 +-2^k+-1, 40 double bit patterns, payload lengths around 128/4096/16384) in 5 contexts; (c) all "
-              "ordered field-id pairs of a 13-id set x all leaf-kind pairs, nested-struct id patterns; (d) all ordered pairs "
+              "ordered field-id pairs of a 13-id set x all leaf-kind pairs, nested-struct id patterns; (e) lists/sets of 65535, 65536, 65537 "
+              "[70000, 131073] one-byte strings / empty structs / empty lists and maps of 32767..32769 entries, bare and as a field; (d) all ordered pairs "
               "(thorough: triples) of depth<=1 shapes written back to back through ONE writer and read through ONE reader; "
               "each x {binary, binary-LE, compact, unchecked} x {BytesMut, LinkedBytes, LinkedBytes zero-copy} x bin/string "
               "API pairs x {plain, generated-code-like} reader call sequences. distinct_nontrivial = distinct cases with >=2 "
@@ -234,7 +235,7 @@ CHECKS = {
     "C13": dict(
         engine="gen:tsem", level="exploration", quick_cap=280, thorough_cap=3600,
         rule=("Every struct of the semantic corpus compiled with keep_unknown_fields. Writer values = minimal and rich value plus "
-              "one extra field (43 payloads: every wire type, empty strings/containers/structs and zero scalars at top level and nested, maps/lists of structs containing structs with variable-size fields, x every position), two extra fields (front/front, front/back, "
+              "one extra field (43 payloads; plus, once per type, a 65537-element list, a 65536-element list of structs and a 32769-entry map as the last unknown field; every wire type, empty strings/containers/structs and zero scalars at top level and nested, maps/lists of structs containing structs with variable-size fields, x every position), two extra fields (front/front, front/back, "
               "back/back), extras inside nested structs, list elements and map values. Decoded with {checked binary, unchecked "
               "binary at a guard page}, re-encoded with both; oracle: the reference decoder recovers every writer field (known "
               "with defaults filled + every unknown, byte-equal values), size() == bytes written, and the known fields equal those "
